@@ -455,6 +455,9 @@ class Pipeline:
 
     def _clear_internal_cache(self) -> None:
         clear_cached_properties(self)
+        if getattr(self, "cache", None) is not None:
+            # The functions, defaults or bound values changed: cached results may be stale
+            self.cache.clear()
 
     def __call__(self, __output_name__: OUTPUT_TYPE | None = None, /, **kwargs: Any) -> Any:
         """Call the pipeline for a specific return value.
